@@ -168,11 +168,10 @@ def wicks_cases(tier, seed):
                     if o[1] in "pq":
                         o[1] = rng.choice("ijab")
         flat = [tuple(o) for g in groups for o in g]
-        # the same operator may occur several times in a string, but sympy
-        # merges ADJACENT identical operators into a Pow, and a normal ordered
-        # group with a repeated operator vanishes on construction
-        if any(x == y for x, y in zip(flat, flat[1:])):
-            continue
+        # the same operator may occur several times in a string (sympy merges
+        # adjacent identical operators into a Pow: such a product vanishes);
+        # a normal ordered group with a repeated operator vanishes on
+        # construction
         if any(no and len({tuple(o) for o in g}) != len(g) for g, no in zip(groups, nos)):
             continue
         case = {"groups": groups, "no": nos, "deltas": rng.random() < 0.4}
